@@ -123,6 +123,15 @@ example : CnlOK [(⟨1.5, [(7, 0.5), (12, 1)]⟩ : CNest ℝ), ⟨2, [(7, 0.5), 
     simp only [List.mem_cons, List.not_mem_nil, or_false] at hm
     rcases hm with rfl | rfl <;> norm_num
 
+/-- reachability: alternative 7 has a positive allocation in a nest; 5 is in no nest (alone) -/
+example : Reachable [(⟨1.5, [(7, 0.5), (12, 1)]⟩ : CNest ℝ), ⟨2, [(7, 0), (3, 1)]⟩] 7 ∧
+    Reachable [(⟨1.5, [(7, 0.5), (12, 1)]⟩ : CNest ℝ), ⟨2, [(7, 0), (3, 1)]⟩] 5 := by
+  constructor
+  · intro _
+    exact ⟨⟨1.5, [(7, 0.5), (12, 1)]⟩, by simp, (7, 0.5), by simp, rfl, by norm_num⟩
+  · intro h
+    simp [inSomeCNest, CNest.alts] at h
+
 /-! ## hence: distributions for every nest structure -/
 
 theorem nested_distribution (nests : List (Nest ℝ)) (alts : List Int) (V av : Int → ℝ) :
